@@ -11,3 +11,40 @@ pub mod opt;
 pub mod proof;
 pub mod repro;
 pub mod solve;
+
+use crate::runner::Property;
+
+/// A computation which is generic in the property (the command-line driver and the fuzz target use it to
+/// go from a property id to its implementation).
+pub trait Visitor {
+    type Out;
+    fn visit<P: Property>(self, prop: &P) -> Self::Out;
+}
+
+pub const ALL_IDS: [&str; 20] = ["C01", "C02", "C03", "C04", "C05", "C06", "C07", "C08", "C09", "C10", "C11", "C12", "C13", "C14", "C15", "C16", "C17", "C18", "C19", "C20"];
+
+pub fn dispatch<V: Visitor>(id: &str, v: V) -> Option<V::Out> {
+    Some(match id {
+        "C01" => v.visit(&solve::SolveProp { id: "C01" }),
+        "C02" => v.visit(&solve::SolveProp { id: "C02" }),
+        "C03" => v.visit(&iter::IterProp),
+        "C04" => v.visit(&opt::OptProp),
+        "C05" => v.visit(&opt::AssumpProp),
+        "C06" => v.visit(&proof::ProofProp),
+        "C07" => v.visit(&iter::MultiProp { id: "C07" }),
+        "C08" => v.visit(&iter::MultiProp { id: "C08" }),
+        "C09" => v.visit(&iter::MultiProp { id: "C09" }),
+        "C10" => v.visit(&hist::HistProp),
+        "C11" => v.visit(&hist::StopProp),
+        "C12" => v.visit(&opt::BoundsProp),
+        "C13" => v.visit(&fzn::FznProp),
+        "C14" => v.visit(&dimacs::CnfProp),
+        "C15" => v.visit(&dimacs::WcnfProp),
+        "C16" => v.visit(&arith::ArithProp),
+        "C17" => v.visit(&expl::ExplProp),
+        "C18" => v.visit(&branch::BranchProp),
+        "C19" => v.visit(&drcp::DrcpProp),
+        "C20" => v.visit(&repro::ReproProp),
+        _ => return None,
+    })
+}
